@@ -158,14 +158,84 @@ def r11_4(ctx):
     ctx.end()
 
 
+def order_provenance(ctx, f, name0, anchor, sorter, rule_attr):
+    """Walk back from the candidate list `name0` used at `anchor` (a loop or a pick statement) through order-preserving
+    derivations to the sort-function call that ordered it.  -> (ok, why)"""
+    name = name0
+    ok, why = False, "the candidates are not taken from a named list"
+    hops = 0
+    line = anchor.lineno
+    while name is not None and hops < 6:
+        hops += 1
+        assigns = [a for a in ast.walk(f.node) if isinstance(a, ast.Assign) and any(isinstance(t, ast.Name) and t.id == name for t in a.targets)
+                   and a.lineno < line]
+        if not assigns:
+            why = f"`{name}` is never assigned before it is used"
+            break
+        last = max(assigns, key=lambda a: a.lineno)
+        v = last.value
+        if isinstance(v, ast.Call) and isinstance(v.func, ast.Name) and v.func.id == sorter:
+            rule = v.args[1] if len(v.args) > 1 else next((kw.value for kw in v.keywords if kw.arg == "priority_rule_mode"), None)
+            if rule_attr is None or (isinstance(rule, ast.Attribute) and rule.attr == rule_attr):
+                ok = True
+            else:
+                why = f"{sorter} is called with `{ast.unparse(rule) if rule is not None else 'the default rule'}` instead of the task's {rule_attr}"
+            break
+        if isinstance(v, ast.Call) and isinstance(v.func, ast.Name) and v.func.id in SORTERS:
+            why = f"`{name}` is ordered by {v.func.id}, not {sorter}"
+            break
+        nxt = Interp._source_name(v)
+        if nxt is None or (nxt == name and not isinstance(v, (ast.ListComp, ast.Call))):
+            why = f"`{name}` is rebuilt by `{ast.unparse(v)[:50]}` (not an order-preserving derivation of a sorted list)"
+            break
+        if nxt == name:
+            # self-refinement (filter / comprehension over itself): look at the assignment before this one
+            earlier = [a for a in assigns if a.lineno < last.lineno]
+            if not earlier:
+                why = f"`{name}` is never sorted"
+                break
+            v2 = max(earlier, key=lambda a: a.lineno).value
+            if isinstance(v2, ast.Call) and isinstance(v2.func, ast.Name) and v2.func.id == sorter:
+                ok = True
+            break
+        name = nxt
+    # every assignment that can reach the use -- not only the textually last one -- must be such a derivation:
+    # a conditional branch that re-uses a remembered order (or skips the sort) visits candidates in a stale order
+    if ok and name0 is not None:
+        pm = parent_map(f.node)
+        assigns0 = [a for a in ast.walk(f.node) if isinstance(a, ast.Assign) and any(isinstance(t, ast.Name) and t.id == name0 for t in a.targets) and a.lineno < line]
+
+        def conditional(a):
+            g = pm.get(id(a))
+            while g is not None and g is not f.node:
+                if isinstance(g, (ast.If, ast.Try, ast.While)) and not any(x is anchor for x in ast.walk(g)):
+                    return True
+                g = pm.get(id(g))
+            return False
+        uncond = [a for a in assigns0 if not conditional(a)]
+        last_unc = max(uncond, key=lambda a: a.lineno) if uncond else None
+        reaching = [a for a in assigns0 if conditional(a) and (last_unc is None or a.lineno > last_unc.lineno)]
+        for a in reaching:
+            v = a.value
+            is_sorter = isinstance(v, ast.Call) and isinstance(v.func, ast.Name) and v.func.id == sorter
+            derives = Interp._source_name(v) == name0 and isinstance(v, (ast.ListComp, ast.Call))
+            if not (is_sorter or derives):
+                ok = False
+                why = f"on one branch `{name0}` is taken from `{ast.unparse(v)[:50]}` instead of {sorter}(...) evaluated in this step"
+    return ok, why
+
+
 def r11_5(ctx):
     ctx.begin("R11.5", "allocation loops iterate lists last ordered by the matching sort function with the task's own rule", floor=4)
     f = alloc_func(ctx)
     _, sites = allocation_sites(ctx)
     loops = {}
+    picks = {}
     for s in sites:
         for lp in s.loops:
             loops[id(lp.node)] = lp
+        if s.pick is not None:
+            picks[id(s.pick["node"])] = s
     expect = {TASK: ("sort_task_list", None), WORKER: ("sort_worker_list", "worker_priority_rule"), FACILITY: ("sort_facility_list", "facility_priority_rule")}
     for n in ast.walk(f.node):
         if isinstance(n, ast.For):
@@ -182,75 +252,26 @@ def r11_5(ctx):
         sorter, rule_attr = expect[cls]
         con = construct(f, f"order:{cls}")
         ctx.instance(f"{con}@{lp.node.lineno}")
-        # walk back through order-preserving derivations to the sorter call
-        name = Interp._source_name(lp.node.iter)
-        ok, why = False, "the loop does not iterate a named list"
-        hops = 0
-        while name is not None and hops < 6:
-            hops += 1
-            assigns = [a for a in ast.walk(f.node) if isinstance(a, ast.Assign) and any(isinstance(t, ast.Name) and t.id == name for t in a.targets)
-                       and a.lineno < lp.node.lineno]
-            if not assigns:
-                why = f"`{name}` is never assigned before the loop"
-                break
-            last = max(assigns, key=lambda a: a.lineno)
-            v = last.value
-            if isinstance(v, ast.Call) and isinstance(v.func, ast.Name) and v.func.id == sorter:
-                rule = v.args[1] if len(v.args) > 1 else next((kw.value for kw in v.keywords if kw.arg == "priority_rule_mode"), None)
-                if rule_attr is None or (isinstance(rule, ast.Attribute) and rule.attr == rule_attr):
-                    ok = True
-                else:
-                    why = f"{sorter} is called with `{ast.unparse(rule) if rule is not None else 'the default rule'}` instead of the task's {rule_attr}"
-                break
-            if isinstance(v, ast.Call) and isinstance(v.func, ast.Name) and v.func.id in SORTERS:
-                why = f"`{name}` is ordered by {v.func.id}, not {sorter}"
-                break
-            nxt = Interp._source_name(v)
-            if nxt is None or (nxt == name and not isinstance(v, (ast.ListComp, ast.Call))):
-                why = f"`{name}` is rebuilt by `{ast.unparse(v)[:50]}` (not an order-preserving derivation of a sorted list)"
-                break
-            if nxt == name:
-                # self-refinement (filter / comprehension over itself): look at the assignment before this one
-                earlier = [a for a in assigns if a.lineno < last.lineno]
-                if not earlier:
-                    why = f"`{name}` is never sorted"
-                    break
-                v2 = max(earlier, key=lambda a: a.lineno).value
-                if isinstance(v2, ast.Call) and isinstance(v2.func, ast.Name) and v2.func.id == sorter:
-                    ok = True
-                break
-            name = nxt
-        # every assignment that can reach the loop -- not only the textually last one -- must be such a derivation:
-        # a conditional branch that re-uses a remembered order (or skips the sort) visits candidates in a stale order
-        name0 = Interp._source_name(lp.node.iter)
-        if ok and name0 is not None:
-            pm = parent_map(f.node)
-            loop_block_parent = pm.get(id(lp.node))
-            assigns0 = [a for a in ast.walk(f.node) if isinstance(a, ast.Assign) and any(isinstance(t, ast.Name) and t.id == name0 for t in a.targets) and a.lineno < lp.node.lineno]
-
-            def conditional(a):
-                g = pm.get(id(a))
-                while g is not None and g is not f.node:
-                    if isinstance(g, (ast.If, ast.Try, ast.While)) and not any(x is lp.node for x in ast.walk(g)):
-                        return True
-                    g = pm.get(id(g))
-                return False
-            uncond = [a for a in assigns0 if not conditional(a)]
-            last_unc = max(uncond, key=lambda a: a.lineno) if uncond else None
-            reaching = [a for a in assigns0 if conditional(a) and (last_unc is None or a.lineno > last_unc.lineno)]
-            for a in reaching:
-                v = a.value
-                is_sorter = isinstance(v, ast.Call) and isinstance(v.func, ast.Name) and v.func.id == sorter
-                derives = Interp._source_name(v) == name0 and isinstance(v, (ast.ListComp, ast.Call))
-                if not (is_sorter or derives):
-                    ok = False
-                    why = f"on one branch `{name0}` is taken from `{ast.unparse(v)[:50]}` instead of {sorter}(...) evaluated in this step"
+        ok, why = order_provenance(ctx, f, Interp._source_name(lp.node.iter), lp.node, sorter, rule_attr)
         if not ok:
             ctx.violation(con, lp.loc if hasattr(lp, "loc") else f.loc(lp.node), f"allocation loop over {cls} candidates: {why}: candidates are not visited in priority order")
+    for s in picks.values():
+        # a worker picked by position from the candidate list: the list must be in priority order and the position the first
+        sorter, rule_attr = expect[WORKER]
+        con = construct(f, f"order:{WORKER}")
+        node = s.pick["node"]
+        ctx.instance(f"{con}@pick{node.lineno}")
+        ok, why = order_provenance(ctx, f, s.cand_name, node, sorter, rule_attr)
+        if ok and s.pick["index"] != 0:
+            ok, why = False, f"the worker is picked as `{s.pick['text']}`, not the first of the ordered candidates"
+        if not ok:
+            ctx.violation(con, f.loc(node), f"worker picked from the candidate list: {why}: the highest-priority candidate is not the one allocated")
     ctx.require({TASK, WORKER, FACILITY, WORKPLACE} <= seen, f"allocation loops found only for {sorted(seen)}")
     # a candidate loop that is left early hands the remaining (eligible) workers to lower-priority tasks
     for s in sites:
-        wl = s.loops[-1]
+        wl = s.worker_loop
+        if wl is None:
+            continue
         for tr, ex in wl.alts:
             if ex is not None and ex[0] in ("break", "return") and not any(isinstance(e, Mut) and e.attr == "allocated_worker_list" for e in tr):
                 ctx.violation(construct(f, "candidate-loop-early-exit"), wl.loc,
